@@ -24,7 +24,7 @@ RULE = ("A generated valid object of each of the seven formats receives exactly 
         "sweeping every documented enumeration value (compose/release/variant/image types, image formats, label names, all "
         "architectures), dump without error. Non-trivial = the corrupted position is below the top level (nested variant, "
         "image in a cell, section object); distinct = SHA-1 of object+corruption. Half of the corruptions are applied to an object that has already been written successfully once, some by mutating a container in place; pattern fields additionally receive mechanically derived near misses (every single-character edit of a valid exemplar that a regex-free reference predicate rejects). Sub-check caller-validates-first: in fresh interpreters the caller's own validate() calls on parts of a valid object come first, in a generated order, before the full corruption table is swept. A refused add that leaves its variant in the forest is a corruption of its own; each corrupt value is first shown to the read-only public helpers.")
-ASSUMPTIONS = ["values the code base does not document as invalid (blank release name/short, absolute instimage, trailing newlines) are deliberately absent from the table",
+ASSUMPTIONS = ["values the code base does not document as invalid (blank release name/short) are deliberately absent from the table",
                "bool is an int in Python: True/False are not used as invalid integers"]
 FLOORS = {"distinct_nontrivial": 1200, "corruption": 800, "table-sweep": 150, "enumerations": 100}
 
@@ -367,7 +367,7 @@ def rich(fmt):
         return {"release": {"name": "Foo", "short": "F", "version": "1.2"}, "layered": True, "base_product": {"name": "B", "short": "b", "version": "7"},
                 "tree": {"arch": "x86_64", "build_timestamp": 123, "platforms": ["x86_64", "xen"]},
                 "variants": [{"id": "Server", "uid": "Server", "name": "Server", "type": "variant", "paths": {"packages": "Packages", "repository": "."}, "children": [kid]}],
-                "images": {"x86_64": {"kernel": "vmlinuz"}, "xen": {"kernel": "vmlinuz-xen"}}, "stage2": {"mainimage": "LiveOS/squashfs.img", "instimage": None},
+                "images": {"x86_64": {"kernel": "vmlinuz"}, "xen": {"kernel": "vmlinuz-xen"}}, "stage2": {"mainimage": "LiveOS/squashfs.img", "instimage": "images/install.img"},
                 "media": {"discnum": 1, "totaldiscs": 2}, "checksums": {"vmlinuz": ["sha256", "aa"]}, "main_variant": None}
     if fmt == "discinfo":
         return {"timestamp": 1386857206.5, "description": "Fedora 20", "arch": "x86_64", "discs": [1, 2]}
